@@ -20,6 +20,7 @@ def streams : List (String × Stream) := [
   ("key", keyStream),
   ("addr", addrStream),
   ("frag", fragStream),
+  ("fragt", fragtStream),
   ("ke", keStream),
   ("ket", ketStream),
   ("node", nodeStream),
